@@ -5,6 +5,9 @@ R17.1 in every "iterate until nothing changes" loop the change flag is only ever
       false forgets a change seen earlier in the round and stops the iteration before the fixed point
 R17.2 every mutation of the iterated sets inside such a loop is noticed: either its "did it change" result is tested and
       one outcome raises the flag, or the flag is raised unconditionally afterwards
+R17.3 every "all of"/"any of" summary flag (a named bool given a constant before a loop, assigned in the loop, read after
+      it) only ever moves away from its initial value inside the loop: an overwrite with a computed value makes the last
+      iteration decide alone (e.g. a production counted as fully costed because its LAST symbol is)
 """
 from mirlib import *
 
@@ -146,5 +149,100 @@ def r171_172(facts, res):
     res.floor('R17.1', 'iterate-until-unchanged loops', n, 2)
 
 
+def summary_flags(b):
+    """[(flag local, init const, init block, loop header, in-loop assignments)]: a named bool that is given a constant before
+    a loop, assigned inside that loop and read after it - the loop summarises "all"/"any" of something into it"""
+    out = []
+    loops = b.loops()
+    for l, ty in enumerate(b.locals):
+        if ty['ty'] != 'bool' or not b.name_of(l) or l <= b.arg_count:
+            continue
+        assigns = []
+        for bb in sorted(b.reachable()):
+            for st in b.blocks[bb]['stmts']:
+                if st['k'] == 'assign' and pkey(st['lhs']) == (l, ()):
+                    assigns.append((bb, st['rv']))
+            t = b.term(bb)
+            if t['k'] == 'call' and pkey(t['dest']) == (l, ()):
+                assigns.append((bb, {'calldest': cpath(t) or 'indirect'}))
+        inits = [(bb, rv['use']['const']['int']) for bb, rv in assigns if 'use' in rv and rv['use'].get('const', {}).get('int') in (0, 1)]
+        for ib, c in inits:
+            # the innermost loop that the init block is NOT part of, but which contains other assignments of the flag and is
+            # dominated by the init
+            cands = [h for h in loops if ib not in loops[h] and b.dominates(ib, h)
+                     and any(bb in loops[h] for bb, rv in assigns if bb != ib)]
+            if not cands:
+                continue
+            # the outermost such loop nested directly under the init's own loop nest
+            h = max(cands, key=lambda x: len(loops[x]))
+            inl = [(bb, rv) for bb, rv in assigns if bb in loops[h]]
+            # no other assignment between the init and the loop (another init on a different path is a different flag use)
+            # read after the loop?
+            exits = {s for x in loops[h] for s in b.succs(x) if s not in loops[h]}
+            after = b.reachable(list(exits), avoid={ib})
+            read_after = False
+            for x in after:
+                if x in loops[h]:
+                    continue
+                t = b.term(x)
+                if t['k'] == 'switch':
+                    pl = op_place(t['on'])
+                    if pl is not None and b.root(pl['l'], through=(), stop_named=False)[0] == l:
+                        read_after = True
+            if read_after:
+                out.append((l, c, ib, h, inl))
+    return out
+
+
+def r173(facts, res):
+    R = 'R17.3'
+    n = 0
+    for b in facts.lib_bodies(CRATES):
+        if b.from_expansion or not b.path.startswith(('cfgrammar::yacc::firsts::', 'cfgrammar::yacc::follows::', 'cfgrammar::yacc::grammar::', 'lrtable::')):
+            continue
+        loops = b.loops()
+        fp = {(flag, h) for h, blocks, flag, resets, assigns in fixpoint_loops(b)}
+        seen = set()
+        for l, c, ib, h, inl in summary_flags(b):
+            if (l, ib) in seen:
+                continue
+            seen.add((l, ib))
+            n += 1
+            fname = b.name_of(l)
+            key = '%s/%s@%s' % (strip_generics(b.path), fname, sorted(loops).index(h))
+            bad = []
+            for bb, rv in inl:
+                cv = rv['use'].get('const', {}).get('int') if 'use' in rv else None
+                if cv is not None and cv in (0, 1):
+                    if cv == c:
+                        # raising the flag back to its initial value inside the summarising loop
+                        bad.append('`%s` is set back to %s inside the loop (line %s)' % (fname, bool(c), b.term(bb).get('line')))
+                    continue
+                if 'bin' in rv and rv['bin'] in ('BitOr', 'BitAnd') and (op_local(rv['a']) == l or op_local(rv['b']) == l):
+                    if (rv['bin'] == 'BitOr') == (c == 0):
+                        continue
+                # a computed overwrite is fine only when the loop is left as soon as the value differs from the initial one
+                latches = {u for (u, hh) in b.back_edges() if hh == h}
+                guards = set()
+                for x in loops[h]:
+                    t = b.term(x)
+                    if t['k'] == 'switch':
+                        pl = op_place(t['on'])
+                        if pl is not None and b.root(pl['l'], through=(), stop_named=False)[0] == l:
+                            guards.add(x)
+                reach = b.reachable([bb], avoid=guards)
+                if reach & latches or h in reach - {bb}:
+                    what = ('the result of %s' % rv['calldest']) if 'calldest' in rv else 'a computed value'
+                    bad.append('`%s` (initially %s) is overwritten with %s at line %s and the loop goes on: what earlier iterations found is forgotten, only the last iteration counts'
+                               % (fname, str(bool(c)).lower(), what, b.term(bb).get('line')))
+            if bad:
+                res.bad(R, key, loc_of(b, ib), '; '.join(bad), {'function': b.path})
+            else:
+                res.ok(R, key, loc_of(b, ib), 'summary flag `%s` starts %s and is only ever %s inside the loop (%d assignments)' % (
+                    fname, str(bool(c)).lower(), 'lowered' if c else 'raised', len(inl)))
+    res.floor(R, 'loop summary flags', n, 8)
+
+
 def run(facts, res):
     r171_172(facts, res)
+    r173(facts, res)
